@@ -1174,7 +1174,7 @@ def check_impl(ctx) -> Result:
         check_rethread(res, case, T0, T1)
     for _ in range(ctx.n(12, 300)):
         check_panel_threads(ctx, res, rng)
-    for _ in range(ctx.n(10, 200)):
+    for _ in range(ctx.n(10, 150)):
         check_panel_case(ctx, res, gen_panel_case(rng))
         if len([v for v in res.violations if v.get('where') not in (WHERE_RETHREAD, WHERE_BOOT)]) > 5:
             break
